@@ -669,4 +669,80 @@ example : (Moin.toString exStyles (exContent [.elem tList [] [.elem tListItem []
 example : (Moin.toString exStyles (exContent [.elem tTable [] [.elem tRows [] [.elem tRow [] [.elem tCell []
     [.elem tP [] [.text [99]]]]]]])).toOption = some [] := by decide +kernel
 
+/-! ## block-level containers whose text the model (like odf2moinmoin.py) loses — the PENDING classes of harness/c18.py
+
+  Each witness is the minimal document of the harness corpus (`moin-top-frame`, `moin-top-shape`, `shape-in-paragraph`,
+  `moin-top-index`, `moin-index-in-section`, `moin-top-numbered-paragraph`, `moin-numbered-paragraph-in-cell`), as minidom
+  shows its content.xml; the real converter gives the same strings (correspondence).  `lostIn` says: the conversion
+  succeeds and the visible text is NOT a subsequence of the output (the lost text is written with digits, which no
+  placeholder ` {tag} ` contains) - the conclusion of
+  `moin_supported_total_complete_partial` fails, so the exclusions of `MoinSupported` cannot simply be dropped. -/
+
+def tToc : Str := [116, 101, 120, 116, 58, 116, 97, 98, 108, 101, 45, 111, 102, 45, 99, 111, 110, 116, 101, 110, 116]  -- text:table-of-content
+def tIndexBody : Str := [116, 101, 120, 116, 58, 105, 110, 100, 101, 120, 45, 98, 111, 100, 121]  -- text:index-body
+def tIndexTitle : Str := [116, 101, 120, 116, 58, 105, 110, 100, 101, 120, 45, 116, 105, 116, 108, 101]  -- text:index-title
+def tNumPar : Str := [116, 101, 120, 116, 58, 110, 117, 109, 98, 101, 114, 101, 100, 45, 112, 97, 114, 97, 103, 114, 97, 112, 104]  -- text:numbered-paragraph
+def tRect : Str := [100, 114, 97, 119, 58, 114, 101, 99, 116]  -- draw:rect
+
+/-- the conversion of the document with these children of office:text succeeds and loses visible text -/
+def lostIn (blocks : List Node) : Bool :=
+  match Moin.toString exStyles (exContent blocks) with
+  | .ok out => !(decide ((nonWs (visibleText blocks)).Sublist (nonWs out)))
+  | .error _ => false
+
+def par (c : Nat) : Node := .elem tP [] [.text [c]]
+
+/-- `<p>a</p><frame><text-box><p>2</p></text-box></frame><p>b</p>` (m-top-frame) -/
+def wTopFrame : List Node := [par 97, .elem tFrame [] [.elem tTextBox [] [par 50]], par 98]
+/-- `<p>a</p><rect><p>2</p></rect><p>b</p>` (m-top-shape) -/
+def wTopShape : List Node := [par 97, .elem tRect [] [par 50], par 98]
+/-- `<p>a<rect><p>2</p></rect>b</p>` (m-nested-shape: written " {draw:rect} ") -/
+def wNestedShape : List Node := [.elem tP [] [.text [97], .elem tRect [] [par 50], .text [98]]]
+/-- `<p>a</p><table-of-content><index-body><index-title><p>1</p></index-title><p>2</p></index-body></table-of-content>
+    <p>b</p>` (m-top-index) -/
+def wTopIndex : List Node :=
+  [par 97, .elem tToc [] [.elem tIndexBody [] [.elem tIndexTitle [] [par 49], par 50]], par 98]
+/-- the same index inside a section (m-nested-index: written " {text:table-of-content} ") -/
+def wNestedIndex : List Node :=
+  [.elem tSection [] [par 97, .elem tToc [] [.elem tIndexBody [] [.elem tIndexTitle [] [par 49], par 50]], par 98]]
+/-- `<p>a</p><numbered-paragraph><p>2</p></numbered-paragraph><p>b</p>` (m-top-numbered-paragraph) -/
+def wTopNumPar : List Node := [par 97, .elem tNumPar [] [par 50], par 98]
+/-- the numbered paragraph inside a table cell (m-nested-numbered-paragraph: written " {text:numbered-paragraph} ") -/
+def wNestedNumPar : List Node :=
+  [.elem tTable [] [.elem tRow [] [.elem tCell [] [par 97, .elem tNumPar [] [par 50], par 98]]]]
+
+/-- **C18 (MoinMoin, pending m-top-frame)**: the text box of a frame that is a child of office:text is lost -/
+theorem moin_top_frame_text_lost : lostIn wTopFrame = true := by decide +kernel
+/-- **C18 (MoinMoin, pending m-top-shape)**: the paragraphs of a drawing shape that is a child of office:text are lost -/
+theorem moin_top_shape_text_lost : lostIn wTopShape = true := by decide +kernel
+/-- **C18 (MoinMoin, pending m-nested-shape)**: a drawing shape inside running text becomes " {draw:rect} " -/
+theorem moin_nested_shape_text_lost : lostIn wNestedShape = true := by decide +kernel
+/-- **C18 (MoinMoin, pending m-top-index)**: a table of content that is a child of office:text is lost with its title -/
+theorem moin_top_index_text_lost : lostIn wTopIndex = true := by decide +kernel
+/-- **C18 (MoinMoin, pending m-nested-index)**: inside a section it becomes " {text:table-of-content} " -/
+theorem moin_nested_index_text_lost : lostIn wNestedIndex = true := by decide +kernel
+/-- **C18 (MoinMoin, pending m-top-numbered-paragraph)**: a numbered paragraph that is a child of office:text is lost -/
+theorem moin_top_numbered_paragraph_text_lost : lostIn wTopNumPar = true := by decide +kernel
+/-- **C18 (MoinMoin, pending m-nested-numbered-paragraph)**: inside a cell it becomes " {text:numbered-paragraph} " -/
+theorem moin_nested_numbered_paragraph_text_lost : lostIn wNestedNumPar = true := by decide +kernel
+
+/-- a frame with a text box as a child of a SECTION or a CELL is converted completely (the corpus document
+    `block-frame-in-section-cell-box-note`): the loss is that of the loop of `toString`, not of `textToString` -/
+theorem moin_block_frame_in_section_and_cell_kept :
+    lostIn [.elem tSection [] wTopFrame, .elem tTable [] [.elem tRow [] [.elem tCell [] wTopFrame]]] = false := by
+  decide +kernel
+
+/-- **C18 (MoinMoin): the full statement is false in the model** — `MoinTotalCompleteFull` fails on the document with a
+    frame between two paragraphs directly in office:text -/
+theorem moinTotalCompleteFull_false : ¬ MoinTotalCompleteFull := by
+  intro h
+  obtain ⟨out, ho, hs⟩ := h exStyles (exContent wTopFrame) (.elem tBody [] [.elem tText [] wTopFrame]) []
+    (.elem tText [] wTopFrame) [] rfl rfl
+  have hl := moin_top_frame_text_lost
+  unfold lostIn at hl
+  rw [ho] at hl
+  have hk : kidsOf (.elem tText [] wTopFrame) = wTopFrame := rfl
+  rw [hk] at hs
+  simp [hs] at hl
+
 end OdfModel.Props.C18Moin
